@@ -1,9 +1,12 @@
 // C16: borrow discipline of Face::Table (every table the face reads goes through it); C14: the compressed-table wrapper
 #include <utility>
-#include "loader.h"
 #ifndef LEN
 #define LEN 24
 #endif
+#define VH_KEEP_COPY 1
+static unsigned char vh_copy[LEN];
+#include "loader.h"
+#include "inc/Decompressor.h"
 #ifndef TAGV
 #define TAGV 0x53696c66      /* 'Silf' */
 #endif
@@ -26,6 +29,15 @@ VH_ENTRY vh_table() {
       if (t._compressed) {
         ASSERT(p->outstanding == 0, "decompressed: the provider's buffer was released, the table owns a private copy");
         ASSERT(t.size() == OUTSZ, "decompressed size equals the announced size");
+#if OUTSZ > 0 && OUTSZ < 64 && LEN > 8
+        { // C14 (transparent): what the table now holds is exactly what the block decodes to - the whole announced size, not a prefix
+          uint8_t *again = (uint8_t *)malloc(OUTSZ); ASSUME(again != 0);
+          int n = lz4::decompress(vh_copy + 8, LEN - 8, again, OUTSZ);
+          ASSERT(n == (int)OUTSZ, "an accepted compressed table decodes to exactly the announced number of bytes");
+          if (n == (int)OUTSZ) for (unsigned i = 0; i < OUTSZ; ++i) ASSERT(data[i] == again[i], "and holds those bytes");
+          free(again);
+        }
+#endif
         uint8_t sink = data[t.size() - 1]; (void)sink;      // owned copy is readable over its whole length
       } else {
         ASSERT(p->outstanding == 1 && data == p->last && t.size() == LEN, "uncompressed: the table borrows the provider's buffer");
